@@ -110,6 +110,18 @@ def native_checks(run, n_cases):
                 fails.append(f"{which} {names}: unknown keyword accepted")
             except TypeError:
                 pass
+            # unknown names that are PARTS of known ones or of their listing (a name is known only if it equals one of the names)
+            parts = set()
+            for nm in names:
+                parts |= {nm[:-1], nm[1:], nm[: max(1, len(nm) // 2)], nm + ",", nm.upper() if nm.upper() != nm else nm.lower()}
+            parts |= {", ".join(names), ", ", ",", " ", "", str(list(names))}
+            for bad in sorted(p for p in parts if p not in names):
+                try:
+                    cls(**{bad: 1.0})
+                    fails.append(f"{which} {names}: the unknown name {bad!r} (a part of a known name or of their listing) was accepted")
+                    break
+                except TypeError:
+                    pass
             # an unknown name TOGETHER with known ones (before / after / between them) is refused just the same
             for pos in range(min(k, 2) + 1):
                 items = [(nm, 2.0) for nm in names[:2]]
